@@ -339,7 +339,7 @@ func checkMain(args []string) int {
 					okc := false
 					switch cd.v.Kind {
 					case "assert":
-						okc = r.Status == "assert" && r.Label == cd.v.Label
+						okc = r.Status == "assert" && r.Label == cd.v.Label || r.Status == "crash"
 					case "panic":
 						okc = r.Status == "panic" || r.Status == "crash" || r.Status == "hang"
 					}
